@@ -63,6 +63,8 @@ func cmdVC(args []string) {
 	for _, a := range fs.Args() {
 		if strings.HasPrefix(a, "lemma:") {
 			e.VerifyLemma(strings.TrimPrefix(a, "lemma:"))
+		} else if strings.HasPrefix(a, "static:") {
+			e.runStatic(strings.TrimPrefix(a, "static:"))
 		} else {
 			e.runVerify(a)
 		}
